@@ -47,10 +47,17 @@ CONTENTS = {
     6: b"x" * 10_000 + b"y",  # more than one 8192-byte chunk
     7: b"x" * 10_000 + b"z",  # same size, differs in the last chunk only
 }
-CLASSES = ["File", "BinaryFile", "Directory"]  # ids 0, 1, 2
-FILE_PATHS = ["f0.dat", "f1.dat", "sub/f2.dat"]  # ids 0..2
-DIR_PATHS = ["d0"]  # id 3
+# file-set classes (ids 0..6): single file, single directory, and multi-member file-sets
+CLASSES = ["File", "BinaryFile", "Directory", "SetOf[File]", "ImageWithHeader", "Xyz", "FileSet"]
+# member paths; ids 0..7 are files and are listed in the order `sorted(fileset.fspaths)` gives (asserted
+# below), so "members in the code's key order" = ascending ids
+FILE_PATHS = ["f0.dat", "f1.dat", "pair/p.hdr", "pair/p.img", "sub/f2.dat", "tri/t.x", "tri/t.y", "tri/t.z"]
+DIR_PATHS = ["d0"]  # id 8
 PATHS = FILE_PATHS + DIR_PATHS
+SUBDIRS = ["pair", "sub", "tri"]
+PAIR = [2, 3]  # ImageWithHeader: header + data
+TRIPLE = [5, 6, 7]  # Xyz: primary + two side cars
+assert [str(x) for x in sorted(Path("/r") / n for n in FILE_PATHS)] == [str(Path("/r") / n) for n in FILE_PATHS]
 INNER = "inner.dat"
 OLD = 40 * 86400 * 10**9  # 40 days in ns (clean-up period is 30 days)
 
@@ -74,9 +81,19 @@ def own_digest(cls_qualname: str, key: str, content: bytes) -> str:
 
 def _load():
     import fileformats.generic as ffg
+    import fileformats.testing as fft
     from pydra.utils import hash as ph
 
-    return ph, {n: getattr(ffg, n) for n in CLASSES}
+    single = lambda c: (lambda paths: c(paths[0]))  # noqa: E731
+    return ph, {
+        "File": single(ffg.File),
+        "BinaryFile": single(ffg.BinaryFile),
+        "Directory": single(ffg.Directory),
+        "SetOf[File]": lambda paths: ffg.SetOf[ffg.File](paths),
+        "ImageWithHeader": lambda paths: fft.ImageWithHeader(paths),  # .img + .hdr (WithSeparateHeader)
+        "Xyz": lambda paths: fft.Xyz(paths),  # .x + .y + .z (WithSideCars)
+        "FileSet": lambda paths: ffg.FileSet(paths),
+    }
 
 
 def serve(inp, out, ph, classes):
@@ -101,9 +118,10 @@ def serve(inp, out, ph, classes):
                 refroot = c["refroot"]
                 os.makedirs(refroot, exist_ok=True)
             elif cmd == "hash":
-                cls = classes[c["cls"]]
+                make = classes[c["cls"]]
+                paths = list(reversed(c["paths"]))  # the code sorts the members itself
                 try:
-                    obj = cls(c["path"])
+                    obj = make(paths)
                     if c["sess"] is None:
                         ans["digest"] = ph.hash_function(obj)
                     else:
@@ -116,10 +134,11 @@ def serve(inp, out, ph, classes):
                 try:
                     tmp = tempfile.mkdtemp(dir=refroot)
                     try:
-                        ans["ref"] = ph.hash_object(cls(c["path"]), persistent_cache=Path(tmp)).hex()
+                        ref_obj = make(paths)
+                        ans["ref"] = ph.hash_object(ref_obj, persistent_cache=Path(tmp)).hex()
                     finally:
                         shutil.rmtree(tmp, ignore_errors=True)
-                    ans["qual"] = f"{cls.__module__}.{cls.__name__}"
+                    ans["qual"] = f"{type(ref_obj).__module__}.{type(ref_obj).__name__}"
                 except Exception as e:  # noqa: BLE001
                     ans["ref_err"] = core.exc_tag(e)
             elif cmd == "drop":
@@ -304,7 +323,8 @@ class Runner:
         cache = hdir / "cache"
         refroot = hdir / "refs"
         files.mkdir(parents=True)
-        (files / "sub").mkdir()
+        for d in SUBDIRS:
+            (files / d).mkdir()
         mode = case.get("mode", "objects")
         procs: dict = {}  # procs mode: session id (or "fresh") -> Worker
 
@@ -327,12 +347,12 @@ class Runner:
             self.shared.call(cmd="reset", cache=str(cache), refroot=str(refroot))
 
         fs: dict = {}  # tracked: pid -> (cid, tid)
-        keyfile: dict = {}  # (cls, pid, tid) -> cache file name
-        refdig: dict = {}  # (cls, cid) -> reference digest
+        keyfile: dict = {}  # (cls, member pids, member tids) -> cache file name
+        refdig: dict = {}  # (cls, member pids, member cids) -> reference digest
         out, disk_sizes, notes = [], [], []
         spec_ok = True
         own_agree = own_total = 0
-        hashed_triples = set()  # (pid, tid, cid) at which some hash op ran (for the D7 match rule)
+        hashed = set()  # (member pids, member tids, member cids) at which some hash op ran (D7 match rule)
         d7 = False
 
         def apath(pid):
@@ -341,12 +361,13 @@ class Runner:
         def listing():
             return {n for n in os.listdir(cache) if not n.endswith(".lock")} if cache.exists() else set()
 
-        def after_fs_change(pids):
+        def after_fs_change(_pids):
+            """D7 match rule: some file-set hashed earlier has, now, every member with the mtime it had at that
+            hash, and not the contents it had then."""
             nonlocal d7
-            for q in pids:
-                if q in fs:
-                    c2, t2 = fs[q]
-                    if any(p == q and t == t2 and c != c2 for (p, t, c) in hashed_triples):
+            for ps_, ts_, cs_ in hashed:
+                if all(q in fs for q in ps_):
+                    if tuple(fs[q][1] for q in ps_) == ts_ and tuple(fs[q][0] for q in ps_) != cs_:
                         d7 = True
 
         try:
@@ -400,40 +421,42 @@ class Runner:
                         fs[q] = fs[p]
                     after_fs_change([q])
                 elif kind in ("hash", "hashFresh"):
-                    p, cls = op["p"], op["cls"]
+                    ps, cls = tuple(op["ps"]), op["cls"]
                     sess = op["s"] if kind == "hash" else None
                     before = listing()
-                    a = worker_for(sess).call(cmd="hash", sess=sess, cls=CLASSES[cls], path=str(apath(p)))
+                    a = worker_for(sess).call(cmd="hash", sess=sess, cls=CLASSES[cls], paths=[str(apath(p)) for p in ps])
                     new = listing() - before
-                    if p in fs:
-                        cid, tid = fs[p]
-                        hashed_triples.add((p, tid, cid))
+                    if all(p in fs for p in ps):
+                        cids = tuple(fs[p][0] for p in ps)
+                        tids = tuple(fs[p][1] for p in ps)
+                        hashed.add((ps, tids, cids))
                         if len(new) == 1:
-                            keyfile[(cls, p, tid)] = next(iter(new))
+                            keyfile[(cls, ps, tids)] = next(iter(new))
                         elif len(new) > 1:
                             notes.append("more than one new cache file for one hash")
                         if "ref" in a:
-                            prev = refdig.setdefault((cls, cid), a["ref"])
+                            prev = refdig.setdefault((cls, ps, cids), a["ref"])
                             if prev != a["ref"]:
                                 spec_ok = False
-                                notes.append("forced recomputation is not a function of (class, content)")
-                            key = "." if not is_dir_path(p) else INNER
-                            own_total += 1
-                            own_agree += own_digest(a["qual"], key, CONTENTS[cid]) == a["ref"]
+                                notes.append("forced recomputation is not a function of (class, members, contents)")
+                            if len(ps) == 1:
+                                key = "." if not is_dir_path(ps[0]) else INNER
+                                own_total += 1
+                                own_agree += own_digest(a["qual"], key, CONTENTS[cids[0]]) == a["ref"]
                         if "digest" in a:
                             if a.get("ref") != a["digest"]:
                                 spec_ok = False
-                            hits = [c_ for (k_, c_), d_ in refdig.items() if k_ == cls and d_ == a["digest"]]
-                            res = hits[0] if len(hits) == 1 else ("unknown" if not hits else "ambiguous")
+                            hits = [c_ for (k_, p_, c_), d_ in refdig.items() if k_ == cls and p_ == ps and d_ == a["digest"]]
+                            res = list(hits[0]) if len(hits) == 1 else ("unknown" if not hits else "ambiguous")
                         else:
                             spec_ok = False
                             res = a.get("err", "no-answer")
                     else:
-                        if a.get("err") == "FileNotFoundError":
+                        if a.get("err") in ("FileNotFoundError", "FormatMismatchError"):
                             res = "missing"
                         else:
                             spec_ok = False
-                            res = a.get("err", "digest-for-missing-file")
+                            res = a.get("err", "digest-for-incomplete-file-set")
                 elif kind == "newProcess":
                     s = op["s"]
                     if mode == "objects":
@@ -441,7 +464,7 @@ class Runner:
                     elif s in procs:
                         procs.pop(s).kill()
                 elif kind == "cleanUp":
-                    victims = {tuple(v) for v in op["victims"]}
+                    victims = {(v[0], tuple(v[1]), tuple(v[2])) for v in op["victims"]}
                     vfiles = {keyfile[v] for v in victims if v in keyfile}
                     now = time.time_ns()
                     for n in listing():
@@ -462,13 +485,13 @@ class Runner:
                 out.append(res)
                 disk_sizes.append(len(listing()))
                 self._check_fs(files, fs)
-            # distinct (class, content) pairs must have distinct reference digests ("reflects content")
-            by_cls: dict = {}
-            for (k_, c_), d_ in refdig.items():
-                if d_ in by_cls.setdefault(k_, {}) and CONTENTS[by_cls[k_][d_]] != CONTENTS[c_]:
+            # different contents of the same file-set must have different reference digests ("reflects content")
+            seen: dict = {}
+            for (k_, p_, c_), d_ in refdig.items():
+                other = seen.setdefault((k_, p_, d_), c_)
+                if [CONTENTS[x] for x in other] != [CONTENTS[x] for x in c_]:
                     spec_ok = False
                     notes.append("forced recomputation gives equal digests for different contents")
-                by_cls[k_][d_] = c_
         finally:
             for w in procs.values():
                 w.kill()
